@@ -225,7 +225,7 @@ var fieldDefs = []fieldDef{
 		Continuation,
 		V1_0.id | V1_1.id},
 	{WarcTargetURI, pURI, false,
-		Warcinfo | Response | Resource | Request | Metadata | Revisit | Conversion | Continuation,
+		Response | Resource | Request | Metadata | Revisit | Conversion | Continuation,
 		V1_0.id | V1_1.id},
 	{WarcTruncated, pTruncReason, false,
 		Warcinfo | Response | Resource | Request | Metadata | Revisit | Conversion | Continuation,
